@@ -90,10 +90,13 @@ def check_controller(tkey, cname, seed, lenient, unit=None):
             setattr(m, u.attr, u.members[unit])
         return m
 
-    def assign(m, v):
+    mixed = lenient == "mixed"      # first assignment lenient (may store out-of-range), second strict
+
+    def assign(m, v, second=False):
         """returns outcome string"""
+        lenient_now = (not second) if mixed else lenient
         try:
-            if lenient:
+            if lenient_now:
                 with override_raise_controller_value_errors(False):
                     setattr(m, c.attr, resolve(m, c, v))
             else:
@@ -111,8 +114,9 @@ def check_controller(tkey, cname, seed, lenient, unit=None):
             case = {"type": tkey, "controller": c.name, "lenient": lenient, "unit": unit,
                     "seq": [v1] if l2 is None else [v1, v2]}
             m = fresh()
+            if mixed and l2 is None:
+                continue
             o1 = assign(m, v1)
-            cur = as_int(getattr(m, c.attr)) if ok1 or not lenient else None
             if ok1:
                 got = getattr(m, c.attr)
                 if o1 != "ok" or as_int(got) != e1:
@@ -122,7 +126,7 @@ def check_controller(tkey, cname, seed, lenient, unit=None):
                 if c.kind == "enum" and not isinstance(got, Enum):
                     vs.append(C.viol("enum-stores-non-member", dict(key, label=l1), {"read": repr(got)}, case))
             else:
-                if not lenient and fixed and o1 != "ControllerValueError":
+                if lenient is False and fixed and o1 != "ControllerValueError":
                     vs.append(C.viol("out-of-range-not-rejected", dict(key, label=l1),
                                      {"assigned": v1, "outcome": o1, "read": repr(getattr(m, c.attr))}, case))
                 if lenient and fixed and o1 != "ok":
@@ -133,9 +137,9 @@ def check_controller(tkey, cname, seed, lenient, unit=None):
                         vs.append(C.viol("enum-stores-non-member", dict(key, label=l1), {"read": repr(got)}, case))
             if l2 is None:
                 continue
-            before = S.module(m, in_project=False)
+            before = S.module(m, in_project=False) if not ok2 else None
             prev = getattr(m, c.attr)
-            o2 = assign(m, v2)
+            o2 = assign(m, v2, second=True)
             got = getattr(m, c.attr)
             if ok2:
                 if o2 != "ok" or as_int(got) != e2:
@@ -143,7 +147,7 @@ def check_controller(tkey, cname, seed, lenient, unit=None):
                                      {"first": v1, "assigned": v2, "outcome": o2, "read": repr(got)}, case))
             else:
                 rejected = o2 != "ok"
-                if not lenient and fixed and o2 != "ControllerValueError":
+                if (mixed or not lenient) and fixed and o2 != "ControllerValueError":
                     vs.append(C.viol("out-of-range-not-rejected", dict(key, label=l2, second=True),
                                      {"first": v1, "assigned": v2, "outcome": o2, "read": repr(got)}, case))
                 if rejected:
@@ -244,7 +248,7 @@ def run(ctx):
             nctl += 1
             units = list(c.ranges) if c.kind == "dependent" else [None]
             for u in units:
-                for lenient in (False, True):
+                for lenient in (False, True, "mixed"):
                     tasks.append(("ctl", tkey, c.name, ctx.seed, lenient, u))
     agg = C.Agg()
     for r in ctx.pmap(_task, tasks, chunksize=4):
